@@ -5,7 +5,7 @@ symbolically (straight-line `return` of an expression; `all`/`any`/comprehension
 therefore both the symbolic definition used in proofs and the executable oracle used by bounded checks and replay.
 """
 # ruff: noqa
-from contracts.specrt import is_deepcopy, same_keys, forall_keys
+from contracts.specrt import is_deepcopy, same_keys, forall_keys, is_new
 
 
 def avail(graph, state, node, param):
